@@ -220,7 +220,7 @@ def _img(spec, ctx, R):
     logf = np.log2(N + 1) + 1
     # ---- blur ---------------------------------------------------------------------------------
     try:
-        B = Q.apply_blur_fft(X, psf)
+        B = Q.apply_blur_fft(X, psf, boundary="periodic") if spec["idx"] % 3 == 0 else (Q.apply_blur_fft(X, psf, "periodic") if spec["idx"] % 3 == 1 else Q.apply_blur_fft(X, psf))
     except Exception as e:
         ctx.check("unexpected_exception", False, site="apply_blur_fft", tags=tags, detail={**det, "exception": repr(e)})
         return
@@ -332,7 +332,7 @@ def _img(spec, ctx, R):
     ch = int(rng.integers(0, 4))
     B3 = Bn.copy()
     B3[..., ch] = amp[ch] * rng.standard_normal((H, W))
-    X3 = Q.qslst_restore_fft(B3, psf, lam)
+    X3 = Q.qslst_restore_fft(B3, psf, lam, boundary="periodic") if spec["idx"] % 2 else Q.qslst_restore_fft(B3, psf, lam, "periodic")
     others = [c for c in range(4) if c != ch]
     ctx.check("channels_independent", bool(np.array_equal(X3[..., others], X1[..., others])), site="qslst_restore_fft", tags=tags, detail={**det, "channel": ch})
     Bb = Q.apply_blur_fft(B3, psf)
